@@ -1329,7 +1329,11 @@ class Tr:
                 return (v, "bool", pa + [("bind", v, t)])
             return (f"({ta} {op} {tb})", "bool", pa)
         if op in ("==", "!=", "<", "<=", ">", ">="):
-            ta, tya, pa = self.expr(a, env, None)
+            if a[0] == "neg":               # `-1 == x`: the literal takes the type of the other side
+                _, tyb0, _ = self.expr(b, env, None)
+                ta, tya, pa = self.expr(a, env, tyb0)
+            else:
+                ta, tya, pa = self.expr(a, env, None)
             tb, tyb, pb = self.expr(b, env, tya)
             if tya is None and tyb is not None:
                 ta, tya, pa = self.expr(a, env, tyb)
